@@ -46,6 +46,10 @@ def process_item(item, *sketches, event_file=None, die=None, table=None):
         raise PlannedRecordError(i, "malformed record")
     if mark == "exit":
         _log(event_file, f"{os.getpid()} {i} exit")
+        if item.get("how") == "KeyboardInterrupt":
+            raise KeyboardInterrupt()  # Ctrl-C reaches the children too
+        if item.get("how") == "SystemExit(2)":
+            raise SystemExit(2)
         if die is not None:
             raise die(f"worker dies on item {i}")
         if item.get("how") == "sigkill":
